@@ -378,7 +378,8 @@ class Arbiter(object):
                 if 'env' in new_watcher_cfg and key in old_watcher_cfg['env']:
                     del old_watcher_cfg['env'][key]
 
-            diff = DictDiffer(new_watcher_cfg, old_watcher_cfg).changed()
+            differ = DictDiffer(new_watcher_cfg, old_watcher_cfg)
+            diff = differ.changed() | differ.added() | differ.removed()
 
             if diff == set(['numprocesses']):
                 # if nothing but the number of processes is
